@@ -268,6 +268,7 @@ func cmdCheck(args []string) {
 	if expected == 0 && violations == 0 {
 		fmt.Println("TOOL ERROR: no obligations generated")
 		writeEvidence(*prop, *tier, seed, units, undecided, knownHit, time.Since(t0), 1, "no obligations generated", all)
+		os.RemoveAll(work)
 		os.Exit(2)
 	}
 	if *writeLock {
@@ -302,6 +303,7 @@ func cmdCheck(args []string) {
 	}
 	fmt.Printf("%s %s: %d obligations, %d discharged, %d known findings, %d undecided, %d violations, %.1fs\n", *prop, *tier, expected, discharged, len(knownHit), len(undecided), violations, time.Since(t0).Seconds())
 	if violations > 0 {
+		os.RemoveAll(work)
 		os.Exit(1)
 	}
 }
